@@ -51,9 +51,11 @@ theorem refine_patch (base patch : P) :
     (base.patch patch).desc = (match patch.desc with | some d => some d | none => base.desc) ∧
     (base.patch patch).dflt = (match patch.dflt with | some d => some d | none => base.dflt) ∧
     (base.patch patch).mandatory = (match patch.mandatory with | some d => some d | none => base.mandatory) ∧
-    (base.patch patch).config = (match patch.config with | some d => some d | none => base.config) := by
+    (base.patch patch).config = (match patch.config with | some d => some d | none => base.config) ∧
+    (base.patch patch).minEl = (match patch.minEl with | some d => some d | none => base.minEl) ∧
+    (base.patch patch).maxEl = (match patch.maxEl with | some d => some d | none => base.maxEl) := by
   cases patch with
-  | mk c d f m => cases c <;> cases d <;> cases f <;> cases m <;> simp [P.patch]
+  | mk c d f m lo hi => cases c <;> cases d <;> cases f <;> cases m <;> cases lo <;> cases hi <;> simp [P.patch]
 
 /-- **config is inherited from the nearest ancestor that states it** -/
 theorem config_inherited (cfg : Bool) (k : Kind) (n : String) (p : P) (kids : List T) :
